@@ -16,7 +16,7 @@ import (
 func init() { register("C11", true, checkC11) }
 
 func checkC11(p *Prog, r *Report) {
-	r.Explain("OWN: the buffered reader of isobmff.Reader is touched only by Reader.peek, Reader.discard, box.Read and the constructor/Close; Reader.peek/discard are called only from the box methods that check the box (box.Peek, box.Discard) and from readBox; box.remain is stored only by the box methods and the three places that create a box — so no consumption can bypass the accounting. GUARD: box.Peek and box.Discard delegate (to the parent or the reader) only under remain >= n, through the parent when there is one; box.Read truncates its request to the minimum of remain over the whole parent chain. ACCT: box.Read charges exactly the count the underlying Read returned, to the box, its parents and Reader.offset; Reader.discard adds the returned count to Reader.offset. FRAME: every store to box.size (the 32-bit field or the 64-bit largesize) is followed on every continuing path by remain = int(that size) on the same box before the box is used or returned. CLOSE: every iteration of a child-box loop closes the child before the next one is read, and ReadMetadata closes (or hands to a closing handler) the top-level box on every path that can return a nil error — so the reader stands at the next box. CMT: the CR3 dispatch passes IFD0, ExifIFD, MakerNote, GPSIFD for CMT1..CMT4 (spec table). HANDOFF: the reader given to the Exif, XMP and preview callbacks is the box itself (whose Read is bounded by GUARD), never the raw buffered reader. Exact byte positions after arbitrary box trees are run-time sums and are not decided.")
+	r.Explain("OWN: the buffered reader of isobmff.Reader is touched only by Reader.peek, Reader.discard, box.Read and the constructor/Close; Reader.peek/discard are called only from the box methods that check the box (box.Peek, box.Discard) and from readBox; box.remain is stored only by the box methods and the three places that create a box — so no consumption can bypass the accounting. GUARD: box.Peek and box.Discard delegate (to the parent or the reader) only under remain >= n, through the parent when there is one; box.Read truncates its request to the minimum of remain over the whole parent chain. ACCT: box.Read charges exactly the count the underlying Read returned, to the box, its parents and Reader.offset; Reader.discard adds the returned count to Reader.offset. FRAME: every store to box.size (the 32-bit field or the 64-bit largesize) is followed on every continuing path by remain = int(that size) on the same box before the box is used or returned. BOXCOPY: no whole-struct load of a box through a pointer that is not the function's own local (a by-value copy of somebody else's box would be charged instead of the original). CLOSE: every iteration of a child-box loop closes the child before the next one is read, and ReadMetadata and ReadFTYP close (or hands to a closing handler) the top-level box on every path that can return a nil error — so the reader stands at the next box. CMT: the CR3 dispatch passes IFD0, ExifIFD, MakerNote, GPSIFD for CMT1..CMT4 (spec table). HANDOFF: the reader given to the Exif, XMP and preview callbacks is the box itself (whose Read is bounded by GUARD), never the raw buffered reader. Exact byte positions after arbitrary box trees are run-time sums and are not decided.")
 	r.Trusted("bufio.Reader Peek/Discard/Read semantics", "CR3 layout: CMT1 root, CMT2 Exif, CMT3 maker note, CMT4 GPS (lclevy/canon_cr3)")
 	sp := p.SSAPkg("isobmff")
 	if sp == nil {
@@ -30,6 +30,7 @@ func checkC11(p *Prog, r *Report) {
 	ruleHandoff(p, r, sp)
 	ruleFrame(p, r, sp)
 	r.Floor("FRAME", 3)
+	ruleBoxCopy(p, r, sp)
 	r.Floor("OWN", 6)
 	r.Floor("GUARD", 3)
 	r.Floor("ACCT", 2)
@@ -660,74 +661,78 @@ func ruleCloseBoxes(p *Prog, r *Report, sp *ssa.Package) {
 		}
 	}
 	r.Extra("child_box_loops", nLoops)
-	// ReadMetadata: the local top-level box
-	f := p.Func("isobmff", "*Reader", "ReadMetadata")
-	key := "isobmff.(*Reader).ReadMetadata | top-level box closed on every non-failing path"
-	if f == nil {
-		r.Undecided("CLOSE", key, "-", "anchor not resolved")
-		return
-	}
-	var boxAlloc ssa.Value
-	eachInstr(f, func(_ *ssa.BasicBlock, _ int, in ssa.Instruction) {
-		if a, ok := in.(*ssa.Alloc); ok {
-			if n := namedOfPtr(a.Type()); n != nil && n.Obj().Name() == "box" {
-				boxAlloc = a
+	// the entry points that read one top-level box each: the local box must be closed when they succeed
+	for _, entry := range []string{"ReadMetadata", "ReadFTYP"} {
+		func() {
+			f := p.Func("isobmff", "*Reader", entry)
+			key := "isobmff.(*Reader)." + entry + " | top-level box closed on every non-failing path"
+			if f == nil {
+				r.Undecided("CLOSE", key, "-", "anchor not resolved")
+				return
 			}
-		}
-	})
-	if boxAlloc == nil {
-		r.Undecided("CLOSE", key, p.posStr(f.Pos()), "local box not found")
-		return
-	}
-	closeBlocks := map[*ssa.BasicBlock]bool{}
-	var handlers []string
-	eachCall(f, func(site ssa.CallInstruction) {
-		if _, isDefer := site.(*ssa.Defer); isDefer {
-			return
-		}
-		if isBoxClose(site, boxAlloc) {
-			closeBlocks[site.Block()] = true
-			return
-		}
-		if sc := site.Common().StaticCallee(); sc != nil && isLibFn(sc) {
-			for _, a := range callArgs(site.Common()) {
-				if a == boxAlloc && mustClose(sc, 0) {
+			var boxAlloc ssa.Value
+			eachInstr(f, func(_ *ssa.BasicBlock, _ int, in ssa.Instruction) {
+				if a, ok := in.(*ssa.Alloc); ok {
+					if n := namedOfPtr(a.Type()); n != nil && n.Obj().Name() == "box" {
+						boxAlloc = a
+					}
+				}
+			})
+			if boxAlloc == nil {
+				r.Undecided("CLOSE", key, p.posStr(f.Pos()), "local box not found")
+				return
+			}
+			closeBlocks := map[*ssa.BasicBlock]bool{}
+			var handlers []string
+			eachCall(f, func(site ssa.CallInstruction) {
+				if _, isDefer := site.(*ssa.Defer); isDefer {
+					return
+				}
+				if isBoxClose(site, boxAlloc) {
 					closeBlocks[site.Block()] = true
-					handlers = append(handlers, fnName(sc))
+					return
+				}
+				if sc := site.Common().StaticCallee(); sc != nil && isLibFn(sc) {
+					for _, a := range callArgs(site.Common()) {
+						if a == boxAlloc && mustClose(sc, 0) {
+							closeBlocks[site.Block()] = true
+							handlers = append(handlers, fnName(sc))
+						}
+					}
+				}
+			})
+			errIdx := 0
+			seen := map[*ssa.BasicBlock]bool{f.Blocks[0]: true}
+			st := []*ssa.BasicBlock{f.Blocks[0]}
+			bad := ""
+			// the box exists only after readBox succeeded: start from the blocks after the readBox call's nil-error edge — approximated by
+			// requiring close on paths that reach a return whose error may be nil AND that pass the dispatch on boxType
+			for len(st) > 0 && bad == "" {
+				b := st[len(st)-1]
+				st = st[:len(st)-1]
+				if len(b.Instrs) > 0 {
+					if ret, ok := b.Instrs[len(b.Instrs)-1].(*ssa.Return); ok {
+						ev, eb := spilledResult(ret.Results[errIdx], b)
+						if !e.definitelyNonNil(ev, eb) {
+							bad = "a return that may carry a nil error is reached without closing the top-level box (" + p.posStr(instrPos(ret)) + "): the next call parses this box's payload as a box header"
+						}
+						continue
+					}
+				}
+				for _, s := range b.Succs {
+					if !seen[s] && !closeBlocks[s] {
+						seen[s] = true
+						st = append(st, s)
+					}
 				}
 			}
-		}
-	})
-	errIdx := 0
-	seen := map[*ssa.BasicBlock]bool{f.Blocks[0]: true}
-	st := []*ssa.BasicBlock{f.Blocks[0]}
-	bad := ""
-	// the box exists only after readBox succeeded: start from the blocks after the readBox call's nil-error edge — approximated by
-	// requiring close on paths that reach a return whose error may be nil AND that pass the dispatch on boxType
-	for len(st) > 0 && bad == "" {
-		b := st[len(st)-1]
-		st = st[:len(st)-1]
-		if len(b.Instrs) > 0 {
-			if ret, ok := b.Instrs[len(b.Instrs)-1].(*ssa.Return); ok {
-				ev, eb := spilledResult(ret.Results[errIdx], b)
-				if !e.definitelyNonNil(ev, eb) {
-					bad = "a return that may carry a nil error is reached without closing the top-level box (" + p.posStr(instrPos(ret)) + "): the next call parses this box's payload as a box header"
-				}
-				continue
+			sort.Strings(handlers)
+			if bad != "" {
+				r.Bad("CLOSE", key, p.posStr(f.Pos()), bad)
+			} else {
+				r.OK("CLOSE", key, p.posStr(f.Pos()), "closed directly or by a handler that closes on all its non-failing paths ("+strings.Join(handlers, ", ")+")")
 			}
-		}
-		for _, s := range b.Succs {
-			if !seen[s] && !closeBlocks[s] {
-				seen[s] = true
-				st = append(st, s)
-			}
-		}
-	}
-	sort.Strings(handlers)
-	if bad != "" {
-		r.Bad("CLOSE", key, p.posStr(f.Pos()), bad)
-	} else {
-		r.OK("CLOSE", key, p.posStr(f.Pos()), "closed directly or by a handler that closes on all its non-failing paths ("+strings.Join(handlers, ", ")+")")
+		}()
 	}
 }
 
